@@ -277,6 +277,9 @@ func checkC03(c *Ctx) {
 	c.Rule("R7", "pipeline order: no go statement hands a request to code that can enqueue it on a request queue")
 	checkNoRequestGoroutine(c, "R7")
 
+	c.Rule("R8", "every reply shape is relayed, one message after the other: the decoder's nesting counter is balanced on every path (shared with C11.R4), so no sequence of replies (null arrays included) makes a later well-formed reply fail")
+	c.withAlias(map[string]string{"R4": "R8"}, func() { checkRecursion(c, inputCone(p)) })
+
 	// ---------------- R6
 	exh, had := c.Extra["exhaustive"]
 	c.withAlias(map[string]string{"O1": "R6", "O2": "R6", "O3": "R6", "O4": "R6", "O5": "R6"}, func() { checkC12(c) })
